@@ -13,6 +13,8 @@ CONSTANTS
   ClockAnomalies = TRUE
   CacheLoss = FALSE
   LiveRounds = FALSE
+  CachePutFails = TRUE
+  CrashInCreate = TRUE
   Stops = FALSE
 INVARIANTS LockAppendOnly PubAppendOnly PublishedWasLocked PubNotAheadOfLock AckPublished AckInLock SameAck
   StagingDiscardSafe Recoverable LoadedIsServable PubBacked ImmutableStable LeafTimes LoserStops NoForkInLock LeafCount PoolBound StoppedIsQuiet
